@@ -2,6 +2,7 @@
 from __future__ import annotations
 
 import fiddle as fdl
+from fiddle._src import daglish
 from fiddle import selectors as fsel
 from fiddle._src.config import Buildable
 
@@ -85,7 +86,35 @@ def replaced_dag(root, is_match, make_replacement):
   return go(root)
 
 
+def run_hidden(rng, acc):
+  """A Buildable subclass that customises the traversal protocol (hides one argument): what is
+  below the hidden argument is not reachable - select() must not see it, and select() and
+  replace() must agree on what they see."""
+  F = rng.choice([kinds.Mid, kinds.Base])
+  hidden_match = fdl.Config(F, x=Sentinel(1))
+  visible_match = fdl.Config(F, x=Sentinel(2))
+  hider = gen.HidingConfig(kinds.Other, x=fdl.Config(kinds.two, x=visible_match if rng.random() < 0.5 else 3),
+                           child=hidden_match)
+  cfg = fdl.Config(kinds.node, a=hider, b=[visible_match], c=rng.choice([None, fdl.Config(F)]))
+  acc.obs('hidden_argument_cases')
+  acc.case(('hidden', F.__name__), True)
+  # (by construction - the subclass's own __flatten__ - hidden_match is not a child of anything)
+  got = list(fsel.select(cfg, F))
+  exp = [b for b in [visible_match, cfg.c] if isinstance(b, Buildable)]
+  if sorted(map(id, got)) != sorted(map(id, exp)):
+    acc.violation('iteration:node-outside-the-traversal-protocol-yielded' if any(g is hidden_match for g in got)
+                  else 'iteration:matching-node-missed',
+                  f'select yielded {len(got)} nodes, {len(exp)} are reachable and match', {'case': 'hidden-argument'})
+    return
+  fsel.select(cfg, F).set(x=Sentinel(9))
+  if hidden_match.x.n != 1 or visible_match.x.n != 9:
+    acc.violation('set:node-outside-the-traversal-protocol-changed', 'x of the hidden / visible node: '
+                  f'{hidden_match.x} / {visible_match.x}', {'case': 'hidden-argument'})
+
+
 def run_case(rng, acc):
+  if rng.random() < 0.1:
+    return run_hidden(rng, acc)
   opts = gen.Opts(max_nodes=rng.choice([4, 8, 14]), max_depth=5, p_share=0.35, p_clone=0.1,
                   btypes=['Config', 'Config', 'Partial'], fns=FNS, lattice=0.0, leaves=LEAVES,
                   containers=['list', 'tuple', 'dict', 'point'], p_container=0.35, uid=False,
